@@ -120,6 +120,16 @@ def gen(ctx, methods):
                 op = rnd.choice(["has", "reached"])
             ops += [op, "off"]
         reqs.append(f"dec {hexs(b)} " + " ".join(ops))
+    # systematic: every request kind (and every ordered pair) right after every small limit, on buffers with room to spare -
+    # the places where "at most n further words" is decided
+    kinds = ["w", "b64", "s", "ws:1", "ws:2", "ws:3", "id", "e:" + typed[0], "e:" + typed[len(typed) // 2]]
+    bufs = [[rnd.randrange(1, 256) for _ in range(20)], list(b"ab\0cdefg\0\0\0hijklmnop\0"), [0] * 16, [rnd.randrange(256) for _ in range(9)]]
+    for b in bufs:
+        for lim in (0, 1, 2, 3):
+            for k1 in kinds:
+                reqs.append(f"dec {hexs(b)} lim:{lim} {k1} off reached off")
+                for k2 in kinds:
+                    reqs.append(f"dec {hexs(b)} w off lim:{lim} {k1} off {k2} off reached off")
     return reqs
 
 
